@@ -1135,6 +1135,8 @@ func emitForRangeStmt(cb *CodeBuilder, p *forRangeStmt, stmts []ast.Stmt, flows 
 				Fun: &ast.SelectorExpr{X: p.stmt.X, Sel: ident(p.enumName)},
 			}
 		}
+		// a composite literal in the range clause must be parenthesized, like a switch tag
+		p.stmt.X = checkParenExpr(p.stmt.X)
 		p.stmt.Body = p.handleFor(&ast.BlockStmt{List: stmts}, 1)
 		cb.emitStmt(p.stmt)
 	} else {
